@@ -306,7 +306,7 @@ def write_replay(prop, rec):
 def regen_tables(prop, meta, exe, build, tier="quick", seed=1, info=None):
     """run the harness with --tables and install the regenerated coq/gen files (T2/T3 translators)"""
     out_broken = []
-    gdir = os.path.join(build, "gen")
+    gdir = os.path.join(build, "gen_%d" % os.getpid())
     shutil.rmtree(gdir, ignore_errors=True)
     os.makedirs(gdir)
     env = goenv()
@@ -444,7 +444,7 @@ def main(argv):
             runs.append(("race", ["--race"], exe_race))
         agg = dict(evaluations=0, nontrivial=0, stats={}, samples=[], exhaustive=[], notes=[])
         for rname, rextra, rexe in runs:
-            rundir = os.path.join(build, "run_" + re.sub(r"\W", "_", rname))
+            rundir = os.path.join(build, "runs", str(os.getpid()), "run_" + re.sub(r"\W", "_", rname))
             hrc, hout, res, hdt = run_harness(rexe, tier, seed, rundir, rextra, meta["harness_timeout"][tier])
             info.setdefault("harness_wall_s", {})[rname] = round(hdt, 1)
             if res is None:
@@ -491,7 +491,7 @@ def main(argv):
     # 4. if something no longer checks and no failing input is known yet: search harder
     if broken and not violations and rc == 0 and tier == "quick" and not a.replay:
         for s2 in (seed, seed + 1):
-            rundir = os.path.join(build, "run_search")
+            rundir = os.path.join(build, "runs", str(os.getpid()), "run_search")
             hrc, hout, r2, hdt = run_harness(exe, "thorough", s2, rundir, [], 240)
             info.setdefault("search_runs", []).append(dict(seed=s2, wall=round(hdt, 1), completed=r2 is not None))
             if r2 and r2.get("violations"):
@@ -565,6 +565,8 @@ def main(argv):
     os.makedirs(os.path.join(VERIF, "evidence"), exist_ok=True)
     if not a.replay:
         json.dump(ev, open(os.path.join(VERIF, "evidence", prop + ".json"), "w"), indent=1, default=str)
+    shutil.rmtree(os.path.join(build, "runs", str(os.getpid())), ignore_errors=True)
+    shutil.rmtree(os.path.join(build, "gen_%d" % os.getpid()), ignore_errors=True)
     for l in out_lines:
         print(l)
     print("%s tier=%s seed=%d obligations=%d/%d cases=%s mismatches=%d oracle_violations=%d broken=%d wall=%.1fs" % (
